@@ -29,7 +29,7 @@ def strategy(tier):
 
 def make_world():
     """the generic body, written once, reachable as function / method / async_proxy"""
-    from asynq import asynq as A, async_proxy, ConstFuture, none_future, is_asyncio_mode
+    from asynq import asynq as A, async_proxy, async_call, ConstFuture, none_future, is_asyncio_mode
 
     W = {"log": [], "done": set(), "viol": [], "mode_seen": set()}
 
@@ -44,6 +44,24 @@ def make_world():
     @A()
     def quick():
         return 1
+
+    # an async_proxy without an explicit asyncio_fn, used many times with different arguments
+    @async_proxy()
+    def pfn(v):
+        return ConstFuture(["pfn", v])
+
+    # async_call (an async_proxy with an explicit asyncio_fn) on an @asynq() function, a plain function, a pure async function
+    @A()
+    def ac_async(v):
+        return ["ac", 0, v]
+
+    def ac_plain(v):
+        return ["ac", 1, v]
+
+    @A(pure=True)
+    def ac_pure(v):
+        return ["ac", 2, v]
+    ac_targets = [ac_async, ac_plain, ac_pure]
 
     def build(s, kids):
         if s is None:
@@ -64,6 +82,12 @@ def make_world():
             return none_future
         if tag == "afn":
             return afn.asynq(s[1])
+        if tag == "excval":
+            return ConstFuture(ValueError(s[1]))
+        if tag == "pfn":
+            return pfn.asynq(s[1])
+        if tag == "acall":
+            return async_call.asynq(ac_targets[s[1]], s[2])
         raise AssertionError(tag)
 
     def block(t, body, got):
@@ -221,6 +245,9 @@ def check(case, ctx):
     ctx.label("caught", any(e[0] == "caught" for t in rb.trans.values() for e in t))
     ctx.label("probe", st_["ops"].get("probe", 0) > 0)
     ctx.label("explicit-asyncio_fn", st_["leaves"].get("afn", 0) > 0)
+    ctx.label("exception-instance-as-value", st_["leaves"].get("excval", 0) > 0)
+    ctx.label("proxy-used-with-several-arguments", st_["leaves"].get("pfn", 0) >= 2)
+    ctx.label("async_call", st_["leaves"].get("acall", 0) > 0)
     ctx.label("plain-function-tail=" + str(tail))
     ctx.nontrivial(case, st_["tasks"] >= 2 and (st_["nested"] or any(e[0] == "caught" for t in rb.trans.values() for e in t)))
     return viol
